@@ -22,9 +22,11 @@ func (db *DB) AgentAdd(agent *agent.Agent) error {
 	/* check if it's a new db */
 	if db.Existed() {
 
-		/* check if agent already exists */
+		/* the id has a row from an earlier session: either the agent is being
+		 * restored (nothing changes), or an agent that was dead or disconnected
+		 * when the teamserver stopped registers again, and the row has to say so */
 		if db.AgentExist(int(AgentID)) {
-			return nil
+			return db.AgentUpdate(agent)
 		}
 
 	} else {
